@@ -4,6 +4,8 @@ import (
 	"encoding/json"
 	"fmt"
 	"math/big"
+	"sync"
+	"sync/atomic"
 
 	"github.com/goblimey/go-ntrip/rtcm/utils"
 
@@ -24,6 +26,8 @@ type bitsCase struct {
 	// history: what the same buffer (same backing array) held when the same field was
 	// extracted just before
 	PrevBuf string `json:"previous_contents,omitempty"`
+	// before that, a field running off the end of the same buffer was asked for
+	PriorOffEnd bool `json:"off_the_end_fetch_before,omitempty"`
 }
 
 func bigBuffer(n int, seed uint64) []byte {
@@ -71,6 +75,18 @@ func checkHistory(c *child.Ctx, k bitsCase) {
 	}
 	copy(buf, prev)
 	ext()
+	if k.PriorOffEnd {
+		// an earlier fetch of a field that runs off the end of this buffer (it panics, or
+		// is refused some other way): it must not change what later fetches return
+		func() {
+			defer func() { recover() }()
+			utils.GetBitsAsUint64(buf, uint(len(buf)*8)-k.Width/2, k.Width+8)
+		}()
+		func() {
+			defer func() { recover() }()
+			utils.GetBitsAsInt64(buf, k.Pos+8, uint(len(buf)*8))
+		}()
+	}
 	copy(buf, cur)
 	got := ext()
 	var want *big.Int
@@ -307,8 +323,53 @@ func monC14(c *child.Ctx, replay json.RawMessage) {
 			}
 			cur[b/8] ^= 1 << (7 - b%8)
 		}
-		k := bitsCase{Buf: hexs(cur), PrevBuf: hexs(prev), Pos: pos, Width: width, Signed: width >= 2 && r.Chance(1, 2)}
+		k := bitsCase{Buf: hexs(cur), PrevBuf: hexs(prev), Pos: pos, Width: width, Signed: width >= 2 && r.Chance(1, 2), PriorOffEnd: i%4 == 1}
 		checkHistory(c, k)
+		c.EvalN(1)
+	}
+	// several decoders extracting fields at the same time, each from its own buffer
+	{
+		nc := c.Share(c.Pick(400000, 8000000))
+		var wg sync.WaitGroup
+		var bad atomic.Value
+		for g := 0; g < 4; g++ {
+			wg.Add(1)
+			go func(g int) {
+				defer wg.Done()
+				defer func() {
+					if rr := recover(); rr != nil {
+						bad.Store([2]string{fmt.Sprintf("extraction of a field inside the buffer panicked while other goroutines were extracting: %v", rr), "{}"})
+					}
+				}()
+				rr := ref.NewRand(r.Uint64() + uint64(g)*7919)
+				for i := 0; i < nc/4 && bad.Load() == nil; i++ {
+					blen := rr.Range(1, 20)
+					buf := rr.Bytes(blen)
+					maxw := blen * 8
+					if maxw > 64 {
+						maxw = 64
+					}
+					width := uint(rr.Range(1, maxw))
+					pos := uint(rr.Range(0, blen*8-int(width)))
+					signed := width >= 2 && i%2 == 0
+					var want, got *big.Int
+					if signed {
+						want, got = ref.BitsBigSigned(buf, pos, width), big.NewInt(utils.GetBitsAsInt64(buf, pos, width))
+					} else {
+						want, got = ref.BitsBig(buf, pos, width), new(big.Int).SetUint64(utils.GetBitsAsUint64(buf, pos, width))
+					}
+					if got.Cmp(want) != 0 {
+						cj, _ := json.Marshal(bitsCase{Buf: hexs(buf), Pos: pos, Width: width, Signed: signed})
+						bad.Store([2]string{"extraction of " + mk2(pos, width, signed) + " returned " + got.String() + ", the addressed bits are " + want.String() + " (three other goroutines were extracting fields from their own buffers at the same time)", string(cj)})
+					}
+				}
+			}(g)
+		}
+		wg.Wait()
+		if v := bad.Load(); v != nil {
+			c.Violate("wrong-value", v.([2]string)[0], []byte(v.([2]string)[1]))
+		}
+		c.Count("concurrent_extractions", int64(nc))
 		c.EvalN(1)
 	}
 	// large buffers: fields next to every multiple of 64 KiB (and of 16 MiB in the
